@@ -366,7 +366,7 @@ func TestVerif_C02_Conc(t *testing.T) {
 		"a read-only journal open that returns an error while the writer is appending is counted (class fresh_open_error), not judged")
 	defer rec.Write(t)
 	logrus.SetLevel(logrus.ErrorLevel)
-	vh.Check(t, "goroutines", 40, 120, func(rt *rapid.T) {
+	vh.Check(t, "goroutines", 40, 80, func(rt *rapid.T) {
 		ctx := context.Background()
 		dir, rm := vh.ScratchDir(t, "c02c-")
 		defer rm()
